@@ -29,7 +29,7 @@ def gen_tables(rng, profile):
         # settled schedules over a tracklist with some unplayable entries (C03: skipping)
         kinds = [rng.weighted([("playable", 6), ("refuse", 1.5), ("nouri", 0.5), ("raises", 0.5), ("nobackend", 0.5)])
                  for _ in range(NTRACKS)]
-    elif profile in ("settled", "restore"):
+    elif profile in ("settled", "restore", "randompass"):
         kinds = ["playable"] * NTRACKS
         if profile == "restore" and rng.random() < 0.2:
             kinds[rng.randrange(NTRACKS)] = "refuse"
@@ -50,7 +50,7 @@ def gen_tables(rng, profile):
             script += [rng.random() < 0.5] * rng.randint(1, 4)
         if rng.random() < 0.1:
             script += [True] * 900   # a backend that refuses everything from some point on
-    elif profile in ("settled", "settledf"):
+    elif profile in ("settled", "settledf", "randompass"):
         script = []
     else:
         script = [rng.random() < 0.15 for _ in range(rng.randint(0, 6))]
@@ -214,7 +214,9 @@ def generate_and_run(rng, profile, max_client_ops=None):
             max_client_ops = {"settled": 14, "settledf": 14, "restore": 16}.get(profile, 30)
         nops = rng.randint(3, max_client_ops)
         is_settled = profile in ("settled", "settledf")
-        base = "schedule" if is_settled else profile
+        base = "schedule" if (is_settled or profile == "randompass") else profile
+        if profile == "randompass":
+            nops = rng.randint(0, 3)
         weights = WEIGHTS[base]
         if is_settled:
             weights = [(k, w) for k, w in weights if k not in ("deliver", "load", "save")]
@@ -279,7 +281,7 @@ def generate_and_run(rng, profile, max_client_ops=None):
                     do(gen_op(rng, sim, weights))
                 if rng.random() < 0.5:
                     settle()
-        if profile == "schedule" and rng.random() < 0.15 and kinds.count("playable") >= 1:
+        if (profile == "randompass" or (profile == "schedule" and rng.random() < 0.15)) and kinds.count("playable") >= 1:
             # one whole random pass over playable entries, started at an arbitrary entry, with
             # preloads that are abandoned before the stream switches (next / seek / stop+play /
             # play(tlid) issued while the announcement is still pending): every entry is visited
@@ -294,14 +296,26 @@ def generate_and_run(rng, profile, max_client_ops=None):
             for which in (0, 2, 3):
                 if runner.trace[-1]["modes"][which]:
                     do(["setmode", which, False])
-            if rng.random() < 0.25:
+            long_repeat = rng.random() < 0.4
+            if long_repeat:
                 do(["setmode", 2, True])
-            do(["add", [rng.choice(good) for _ in range(rng.randint(2, 5))], None])
+            # under repeat: a short list walked through several passes, so that the new order
+            # drawn at the end of a pass sometimes begins with the entry that just played
+            do(["add", [rng.choice(good) for _ in range(rng.randint(3, 4) if long_repeat else rng.randint(2, 5))], None])
             do(["setmode", 1, True])
             do(["play", sim.some_tlid(rng, 1.0) if rng.random() < 0.8 else None])
             settle()
-            for _ in range(2 * sim.n + 3):
-                r = rng.random()
+            toggled = False
+            for _ in range((5 if long_repeat else 2) * sim.n + 3):
+                r = rng.random() * (0.65 if long_repeat else 1.0)
+                if not toggled and not long_repeat and rng.random() < 0.12:
+                    # random switched off and on again in the middle of a pass: a complete new order
+                    toggled = True
+                    do(["setmode", 1, False])
+                    if rng.random() < 0.5:
+                        do(["next"])
+                        settle()
+                    do(["setmode", 1, True])
                 if r < 0.35:
                     do(["next"])
                 elif r < 0.65:
@@ -445,6 +459,15 @@ def generate_and_run(rng, profile, max_client_ops=None):
             do(["save"])
             do(["load", cov, True] if rng.random() < 0.15 else ["load", cov])   # third element: the file cannot be deleted
             settle()
+            if rng.random() < 0.2:
+                # the restored session is saved and restored once more (what came from the first
+                # state file has to survive the second restart as well)
+                for _ in range(rng.randint(0, 2)):
+                    do(gen_op(rng, sim, weights))
+                settle()
+                do(["save"])
+                do(["load", [True] * 5 if rng.random() < 0.7 else cov])
+                settle()
             if sim.n >= max_len and sim.tlids:
                 do(["remove", [rng.choice(sim.tlids)], None])   # make room: the restored list was full
             do(["add", [rng.randrange(NTRACKS) for _ in range(rng.randint(1, 3))], None])
